@@ -29,7 +29,8 @@ META = {
              'real evaluator and every direct call on a sub-expression is compared with an independent interval '
              'semantics; a case is non-trivial when at least one non-field operator was evaluated on a non-empty '
              'input; distinct = digest of (language spec, abstract model)'
-             '; added strata: shared strata (DESIGN 11.5): large languages / models, names nested in one another, (f[T])* operands, histories with a shared association instance one member of which leaves after a mid-history generation, the interference layer (other language graphs, refused calls, interrupted and twin generations), DEBUG log level'),
+             '; added strata: shared strata (DESIGN 11.5): large languages / models, names nested in one another, (f[T])* operands, histories with a shared association instance one member of which leaves after a mid-history generation, the interference layer (other language graphs, refused calls, interrupted and twin generations), DEBUG log level'
+             '; round 7: the language graph is built through one of four routes (dict, .mar archive at one path, saved specification, MAL source through the compiler)'),
     'assumptions': [
         'reference semantics in mtv/ref_sem.py is the MAL meaning (collect is element-wise; e* within [closure+, closure*])',
         'generated languages are inside what malc accepts (DESIGN 2.1)',
